@@ -1,0 +1,5 @@
+//go:build !verif
+
+package watcher
+
+func verifHook(p *Changes, point string, dir string) {}
